@@ -145,7 +145,49 @@ func guardedNonNil(pk *packages.Package, cf *funcCFG, fnBody *ast.BlockStmt, sit
 			// do not look outside the closure for dominance, but an enclosing guard in the parent still holds lexically
 		}
 	}
-	// 2. dominating `if path == nil { return/continue/panic }`
+	// 2. edge facts of the CFG: every path to the site crosses the non-nil edge of a comparison of the path with nil
+	//    (whatever statement form the comparison has), with no assignment to the path or a prefix of it in between
+	if cf != nil {
+		insideLit := false
+		for _, p := range stack {
+			if _, ok := p.(*ast.FuncLit); ok {
+				insideLit = true
+			}
+		}
+		if !insideLit {
+			est := func(cond ast.Expr, trueEdge bool) bool {
+				if trueEdge {
+					return isPathNilCmp(cond, token.NEQ)
+				}
+				return isPathNilCmp(cond, token.EQL)
+			}
+			kills := func(n ast.Node) bool {
+				killed := false
+				ast.Inspect(n, func(m ast.Node) bool {
+					switch x := m.(type) {
+					case *ast.FuncLit:
+						return false
+					case *ast.AssignStmt:
+						for _, l := range x.Lhs {
+							if lp := accessPath(pk, l); lp != "" && (lp == path || strings.HasPrefix(path, lp+".")) {
+								killed = true
+							}
+						}
+					case *ast.IncDecStmt:
+						if lp := accessPath(pk, x.X); lp != "" && (lp == path || strings.HasPrefix(path, lp+".")) {
+							killed = true
+						}
+					}
+					return true
+				})
+				return killed
+			}
+			if cf.establishedAt(site, est, kills) {
+				return "every path crosses the non-nil edge of a nil test of " + prettyPath(path)
+			}
+		}
+	}
+	// 3. dominating `if path == nil { return/continue/panic }`
 	res := ""
 	ast.Inspect(fnBody, func(n ast.Node) bool {
 		ifs, ok := n.(*ast.IfStmt)
